@@ -59,6 +59,9 @@ type Step struct {
 	// Alt (create update delete): the alternative call of the route - collection API: CreateMany / Save /
 	// DeleteWithFilter on _docID; GraphQL: list input / filter on _docID instead of the docID argument
 	Alt bool `json:"alt,omitempty"`
+	// Reuse (update by the actor without transaction): when the latest collection-API update of the document ran in
+	// a transaction that was discarded or failed to commit, that update is retried with the SAME document object
+	Reuse bool `json:"reuse,omitempty"`
 }
 
 // Case is the whole input.
@@ -126,6 +129,9 @@ func drawOp0(t *rapid.T, actor, ndocs int, label string) Step {
 	switch st.K {
 	case "create", "update", "delete":
 		st.Alt = rapid.IntRange(0, 3).Draw(t, label+"alt") == 0
+	}
+	if st.K == "update" && actor == 0 {
+		st.Reuse = rapid.IntRange(0, 2).Draw(t, label+"reuse") == 0
 	}
 	switch st.K {
 	case "create", "delete", "get", "exists":
@@ -220,6 +226,25 @@ func drawCase(t *rapid.T) Case {
 		a := live[rapid.IntRange(0, len(live)-1).Draw(t, "pick")]
 		c.Steps = append(c.Steps, queues[a][0])
 		queues[a] = queues[a][1:]
+	}
+	if rapid.IntRange(0, 3).Draw(t, "retryTail") == 0 {
+		// structured ending, the retry idiom: a transaction updates a seeded document through the collection API and is
+		// discarded (or loses a conflict against a write made meanwhile); the update is then retried outside any
+		// transaction with the same document object
+		d := rapid.IntRange(0, nd-1).Draw(t, "retryDoc")
+		c.Seed[d] = true
+		a := nt + 1
+		field, v := "age", rapid.IntRange(6, 9).Draw(t, "retryAge")
+		c.Steps = append(c.Steps,
+			Step{A: a, K: "begin"},
+			Step{A: a, K: "update", D: d, F: field, V: v, R: 2, Alt: rapid.Bool().Draw(t, "retrySave")})
+		if rapid.Bool().Draw(t, "retryConflict") {
+			c.Steps = append(c.Steps, Step{A: 0, K: "update", D: d, F: "age", V: rapid.IntRange(10, 12).Draw(t, "otherAge"), R: rapid.IntRange(0, 2).Draw(t, "otherRoute")},
+				Step{A: a, K: "commit"})
+		} else {
+			c.Steps = append(c.Steps, Step{A: a, K: "discard"})
+		}
+		c.Steps = append(c.Steps, Step{A: 0, K: "update", D: d, Reuse: true}, Step{A: 0, K: "get", D: d, R: rapid.IntRange(0, 2).Draw(t, "readRoute")})
 	}
 	return c
 }
